@@ -245,6 +245,24 @@ def rerep(d, how, rng, audit):
     return out
 
 
+def rekey(d, rng):
+    """the same mapping with its keys inserted in another order: a ballot is a mapping candidate -> rank / index, and
+    what it says must not depend on the order in which a reader (or a caller) happened to insert the candidates"""
+    ks = list(d)
+    rng.shuffle(ks)
+    return {k: d[k] for k in ks}
+
+
+def rekey_pair(A, av, gv, rng):
+    """for the evaluations only (the readers' dicts are compared with the model in their own order): each side's
+    mappings re-inserted in another key order, half of the time"""
+    if rng.random() < 0.5:
+        av = A.CVR(id=av.id, votes={k: rekey(d, rng) for k, d in av.votes.items()})
+    if rng.random() < 0.5:
+        gv = {k: rekey(d, rng) for k, d in gv.items()}
+    return av, gv
+
+
 def rerep_cvr(A, cvr, how, rng):
     if how == "asis":
         return cvr
@@ -317,15 +335,16 @@ def sweep(ctx, res, A, RU, ids, n, si, sample=None):
                 "signature": "C14:readers-lost-ballot"})
             continue
         outs = []
+        av_e, gv_e = rekey_pair(A, av, gv, ctx.rng)
         for a, ka, asr, ro in zip(asrts, kas, assorters, robjs):
-            x, gw, gl = asr.assort(av), ro.is_vote_for_winner(gv), ro.is_vote_for_loser(gv)
+            x, gw, gl = asr.assort(av_e), ro.is_vote_for_winner(gv_e), ro.is_vote_for_loser(gv_e)
             outs.append((ka, x, gw, gl))
             res.oracle_runs += 1
             if F(x) != F(gw - gl + 1, 2):
                 res.oracle_violations.append({
                     "what": f"{a[0]} assorter value differs from (w - l + 1)/2 of the generator's own verdicts",
                     "input": {"candidates": cands, "ballot_ranking": list(r), "assertion": json_of(a),
-                              "contest": cid, "cvr_votes": repr(av.votes), "raire_cvr": repr(gv)},
+                              "contest": cid, "cvr_votes": repr(av_e.votes), "raire_cvr": repr(gv_e)},
                     "observed": {"assort_audit": x, "raire_is_vote_for_winner": gw, "raire_is_vote_for_loser": gl},
                     "signature": f"C14:assort-vs-raire:{a[0]}"})
             if a[1] in r or a[2] in r:
@@ -557,6 +576,7 @@ def file_case(ctx, res, A, RU, ids):
             if av is None or gv is None:
                 continue
             av, gv = rerep_cvr(A, av, pick_rep(rng), rng), rerep_gcvr(gv, pick_rep(rng), rng)
+            av, gv = rekey_pair(A, av, gv, rng)
             for a, asr, ro in zip(asrts, assorters, robjs):
                 res.oracle_runs += 1
                 x, gw, gl = asr.assort(av), ro.is_vote_for_winner(gv), ro.is_vote_for_loser(gv)
